@@ -22,7 +22,7 @@ def corpus():
 
 
 def generate(rng, tier, override=0):
-    n = override or (1500 if tier == "quick" else 40000)
+    n = override or (1500 if tier == "quick" else 250000)
     return [conn_gen.gen_session(rng, tier, PROFILE(i)) for i in range(n)]
 
 
